@@ -157,6 +157,21 @@ def c04_half_full(rng, tier):
             out.append(f)
     if np.max(np.abs(oh["CM"] - of["CM"])) > tol * max(np.max(np.abs(of["CM"])), 1e-6):
         out.append(_fail("CM differs between half and full model", oh["CM"], of["CM"], **case))
+    # mixed descriptions: some surfaces as halves, the others full-span (per-surface conventions must not leak between surfaces)
+    if ns >= 2 and not with_wave:
+        pick = [bool(rng.integers(2)) for _ in range(ns)]
+        if all(pick) or not any(pick):
+            pick[0] = not pick[0]
+        for order in (1, -1):
+            mixed = [(half[k] if pick[k] else full[k][0]) for k in range(ns)][::order]
+            om_ = pipelines.aero_outputs(pipelines.run_aero_point(mixed, flow, compressible=compressible), mixed)
+            for q in ("CL", "CD"):
+                if abs(om_[q] - of[q]) > tol * max(abs(of[q]), 1e-6):
+                    out.append(_fail("aircraft %s of a mixed half/full model differs from the full model" % q, om_[q], of[q],
+                                     half_surfaces=pick, reversed_order=(order == -1), **case))
+            # CM is normalised by the MAC of the first surface: compare the dimensional moment through CM * MAC-independent part
+            if order == 1 and np.max(np.abs(om_["CM"] - of["CM"])) > tol * max(np.max(np.abs(of["CM"])), 1e-6):
+                out.append(_fail("CM of a mixed half/full model differs from the full model", om_["CM"], of["CM"], half_surfaces=pick, **case))
     return out
 
 
